@@ -1,4 +1,5 @@
 import CotengraVerif.Lemmas.TreeState
+import CotengraVerif.Lemmas.MaxCounter
 
 /-!
 # C04 — incrementally tracked costs equal a from-scratch rebuild after any history
@@ -654,5 +655,86 @@ theorem slice_unslice_id (s s1 s2 : TS) (ix : Ix) (project : Bool) (hwf : WF s) 
   · exact fun h => h.1
   · intro h
     exact ⟨h, fun e => hs1.2.2.2 (e ▸ h)⟩
+
+
+/-! ### MaxCounter (utils.py:210), the container behind `_sizes` -/
+
+inductive MCOp where
+  | add (x : Nat)
+  | discard (x : Nat)
+
+/-- run a sequence of operations -/
+def mcRun : MC → List MCOp → MC
+  | m, [] => m
+  | m, .add x :: t => mcRun (m.add x) t
+  | m, .discard x :: t => mcRun (m.discard x) t
+
+/-- the multiset semantics: add = insert, discard = remove one copy if present -/
+def specRun : List Nat → List MCOp → List Nat
+  | l, [] => l
+  | l, .add x :: t => specRun (x :: l) t
+  | l, .discard x :: t => specRun (l.erase x) t
+
+theorem mcRun_inv (m0 : MC) (l0 : List Nat) (ops : List MCOp) (hinv : MC.Inv m0)
+    (hc : ∀ y, m0.c.get y = l0.count y) :
+    MC.Inv (mcRun m0 ops) ∧ ∀ y, (mcRun m0 ops).c.get y = (specRun l0 ops).count y := by
+  induction ops generalizing m0 l0 with
+  | nil => exact ⟨hinv, hc⟩
+  | cons o t ih =>
+    cases o with
+    | add x =>
+      simp only [mcRun, specRun]
+      apply ih (m0.add x) (x :: l0) (MC.inv_add m0 x hinv)
+      intro y
+      rw [MC.get_add_count, hc y, List.count_cons]
+      by_cases e : x = y <;> simp [e]
+    | discard x =>
+      simp only [mcRun, specRun]
+      apply ih (m0.discard x) (l0.erase x) (MC.inv_discard m0 x hinv)
+      intro y
+      rw [MC.get_discard_count m0 x y hinv, hc y]
+      by_cases e : x = y
+      · subst e
+        simp only [if_true]
+        rw [List.count_erase_self]
+      · simp only [e, if_false, Nat.sub_zero]
+        rw [List.count_erase_of_ne (fun c => e c.symm)]
+
+/-- **MaxCounter.** After any sequence of `add`/`discard` the cached maximum is the maximum of the
+    multiset of elements added and not yet discarded (`none` = `-inf` iff the multiset is empty), and
+    the counter holds exactly that multiset; discarding an absent element is a no-op. -/
+theorem maxcounter_inv (ops : List MCOp) :
+    (∀ y, (mcRun MC.empty ops).c.get y = (specRun [] ops).count y) ∧
+    (match (mcRun MC.empty ops).max with
+     | none => specRun [] ops = []
+     | some M => M ∈ specRun [] ops ∧ ∀ a ∈ specRun [] ops, a ≤ M) := by
+  obtain ⟨hinv, hc⟩ := mcRun_inv MC.empty [] ops MC.inv_empty (by intro y; simp [MC.empty])
+  refine ⟨hc, ?_⟩
+  generalize mcRun MC.empty ops = m at *
+  have hmem : ∀ a, a ∈ Legs.keys m.c ↔ a ∈ specRun [] ops := by
+    intro a
+    rw [Legs.mem_keys_iff_get_pos m.c hinv.nodup hinv.pos a, hc a, List.count_pos_iff]
+  have hm := hinv.ismax
+  unfold MC.max
+  cases hmx : m.mx with
+  | none =>
+    rw [hmx] at hm
+    simp only [MC.IsMaxOf] at hm
+    simp only
+    apply List.eq_nil_iff_forall_not_mem.2
+    intro a ha
+    have := (hmem a).2 ha
+    rw [hm] at this; cases this
+  | some M =>
+    rw [hmx] at hm
+    simp only [MC.IsMaxOf] at hm
+    simp only
+    exact ⟨(hmem M).1 hm.1, fun a ha => hm.2 a ((hmem a).2 ha)⟩
+
+example : mcRun MC.empty [.add 3, .add 3, .add 2, .discard 3, .add 10, .discard 10, .discard 3] =
+    { c := [(2, 1)], mx := some 2 } := by decide
+
+/-- a `discard` of an absent element is a no-op (`Counter.__delitem__` does not raise) -/
+example : mcRun MC.empty [.add 3, .discard 4] = { c := [(3, 1)], mx := some 3 } := by decide
 
 end Cotengra.C04
